@@ -71,6 +71,20 @@ theorem adjacent_checkpoint_bounds (nf : Bool) (lims : List Rect) (dim : Nat) (c
     (cp.c dim < s.seg.pos → cp.c dim ≤ s.seg.minLim) ∧ (s.seg.pos < cp.c dim → s.seg.maxLim ≤ cp.c dim) :=
   NudgeSegsSpec.adjacent_checkpoint_bounds nf lims dim c i s h hmid hfree cp hcp
 
+/-- Cache entries whose index lies beyond the route (`> 2·(n−1)`) are never selected for any segment of the route: they protect
+    nothing.  Such entries EXIST in the C++: `simplifyOrthogonalRoutes` replaces the display route by `displayRoute().simplify()`
+    through `ConnRef::set_route`, which copies the points only, so after a simplification that removed points (the unifying pass
+    aligned two segments) the cache keeps the indexes of the longer route (counted by the driver: `segtie.cache-stale`;
+    reports/bN1.md, finding 4). -/
+theorem stale_cache_entries_protect_nothing (cache : List (Nat × Pt)) (n s mode : Nat) (hs : s + 2 ≤ n) :
+    cpsOnSegment cache s mode = cpsOnSegment (cache.filter (fun e => decide (e.1 ≤ 2 * (n - 1)))) s mode := by
+  unfold cpsOnSegment
+  simp only [List.filter_filter]
+  congr 1
+  apply List.filter_congr
+  intro e _
+  by_cases h1 : mode = 1 <;> by_cases h2 : mode = 2 <;> simp [h1, h2] <;> omega
+
 /-! ### (c) consistency of the limits; bends -/
 
 /-- every generated segment (positions within ±CHANNEL_MAX): minLim ≤ pos ≤ maxLim -/
